@@ -345,8 +345,17 @@ def gen_norm(rng, n, tier="quick"):
                 darg = naive.replace(tzinfo=zones.docs(z2) if z2.iana and rng.random() < 0.3 else z2.tzinfo)
                 dtok = "A%d:%d" % (wall_us(naive), z2.id)
             descr["date"] = repr(darg)
-            with FrozenClock(now, tick):
-                st, v = call(moon.moonrise if rise else moon.moonset, o, darg, tzarg)
+            if isinstance(darg, datetime.datetime) and darg.tzinfo is not None and rng.random() < 0.5:
+                # an aware datetime as the date and NO zone argument: the documented default (UTC)
+                # is the output zone — for the moon the datetime's own zone plays no part
+                z = zones.fixed(0)
+                ztz, tz_tok = z.tzinfo, "Zobj:%d" % z.id
+                descr["zone"] = "omitted (default UTC)"
+                with FrozenClock(now, tick):
+                    st, v = call(moon.moonrise if rise else moon.moonset, o, darg)
+            else:
+                with FrozenClock(now, tick):
+                    st, v = call(moon.moonrise if rise else moon.moonset, o, darg, tzarg)
             if st == "ok":
                 exp = N if v is None else TZD(v, ztz)
             else:
